@@ -105,6 +105,24 @@ Theorem C20_server_name : forall h o f host port h' a,
 Proof. exact dial_server_name. Qed.
 Print Assumptions C20_server_name.
 
+(* "The host being dialled" starts at the contact point: every HostInfo that hostInfo/addrsToHosts makes from a
+   contact point given by name (or as an IP literal) is dialled under that very name -- whatever the lookup
+   returned and whether or not GOCQL_HOST_LOOKUP_PREFER_V4 filters the addresses -- and a lookup that returned
+   addresses yields at least one host.  With C20_server_name: verification without an explicit ServerName is
+   against the configured contact-point name, never against the address it resolved to. *)
+Theorem C20_dialled_name_is_contact_point : forall host port literal ips prefer_v4,
+  host <> [] ->
+  (forall hi, In hi (resolve_contact host port literal ips prefer_v4) ->
+     hostname_and_port hi = join_host_port host port)
+  /\ (ips <> [] -> resolve_contact host port None ips prefer_v4 <> []).
+Proof.
+  intros host port literal ips pv4 Hne. split.
+  - intros hi Hin. destruct (resolve_contact_hostname _ _ _ _ _ _ Hin) as [Hh Hp].
+    unfold hostname_and_port. rewrite Hh, Hp. destruct host; [congruence|]. cbn [is_nil]. apply go_join_is_join.
+  - apply resolve_contact_nonempty.
+Qed.
+Print Assumptions C20_dialled_name_is_contact_point.
+
 (* Unreadable or unparsable files are errors, in the order the code checks them, and nothing else is:
    the result of setupTLSConfig as a function of the files. *)
 Theorem C20_file_errors : forall h o f,
@@ -272,6 +290,14 @@ Proof.
     cbn in Hr. inversion Hr; subst p. inversion Hf; subst x certs. apply Hneq. reflexivity. }
   split; vm_compute; reflexivity.
 Qed.
+
+(* "localhost" looked up as [127.0.0.1 (v4); ::1], GOCQL_HOST_LOOKUP_PREFER_V4 on: one host, 127.0.0.1, dialled as localhost:9042 *)
+Example C20_nonvacuous_contact_point :
+  let lh := [108; 111; 99; 97; 108; 104; 111; 115; 116] in
+  map (fun hi => (hi_addr hi, hostname_and_port hi))
+      (resolve_contact lh [57; 48; 52; 50] None [([49; 50; 55; 46; 48; 46; 48; 46; 49], true); ([58; 58; 49], false)] true)
+  = [([49; 50; 55; 46; 48; 46; 48; 46; 49], lh ++ [58; 57; 48; 52; 50])].
+Proof. vm_compute. reflexivity. Qed.
 
 Example C20_nonvacuous_auth :
   let cls := nth 0 K.defaultApprovedAuthenticators [] in
